@@ -17,10 +17,14 @@ THOROUGH = 1000000
 PROP = {
     "ready": True,
     "harness": ["harness/C08.cpp"],
-    "units": vpdriver.libc_units(["string/%s.c" % f for f in STRING]),
+    "units": vpdriver.libc_units(["string/%s.c" % f for f in STRING]) + [
+        # the header route: compiled against the bundled headers, bound to the shim's functions through the igc_ group
+        {"src": "V:harness/C08_hdr.c", "group": "igc_", "opt": "-O0", "no_repo_inc": True,
+         "flags": ["-fno-builtin", "-I{REPO}/compat/libc/include", "-I{REPO}", "-Wno-everything"]}],
     "targets": [{"name": "str_enum", "mode": "enum"}]
                + [{"name": f, "quick": QUICK, "thorough": THOROUGH, "maxlen": 400} for f in FUNCS]
                + [{"name": "all", "quick": 0, "thorough": 2000000, "maxlen": 400},
+                  {"name": "via_header", "quick": 400000, "thorough": 4000000, "maxlen": 96},
                   {"name": "span_soak", "quick": 400, "thorough": 5000, "maxlen": 64},
                   {"name": "all_long", "quick": 600000, "thorough": 6000000, "maxlen": 400}],
     "uchar": ["all_long"],
